@@ -62,6 +62,9 @@ def check(case, ctx):
         ctx.skip("grey-zone eigenvalue of X^T X")
         return
     Yfit = Y[:, 0] if case["y1d"] else Y
+    if case["y1d"] and case["Xnew"].shape[0] % 2:
+        Yfit = Yfit.tolist()              # array-like: a plain list of numbers is a 1-D target too
+        ctx.cls("y=list")
     Yhat = X @ np.linalg.solve(X.T @ X + a * np.eye(m), X.T @ Y)
     w, U = pc.ktilde_eig(X, Yhat, mix)
     sc = w[0]
